@@ -15,7 +15,10 @@ import (
 	proto "github.com/kubewharf/kubebrain-client/api/v2rpc"
 
 	"github.com/kubewharf/kubebrain/pkg/backend"
+	"github.com/kubewharf/kubebrain/pkg/metrics"
 	"github.com/kubewharf/kubebrain/pkg/storage"
+
+	kbprom "github.com/kubewharf/kubebrain/pkg/metrics/prometheus"
 
 	"verif/sim/rt"
 	"verif/sim/world"
@@ -65,8 +68,10 @@ type raceScenario struct {
 	Fault   float64 `json:"fault"`
 	Cache   int     `json:"cache"`
 	Millis  int     `json:"millis"`
-	TTL     int     `json:"event_ttl_s,omitempty"`   // TTL of Event records (seconds): expiry timers fire during the run
-	Lazy    int     `json:"lazy_watchers,omitempty"` // watchers that never read: the hub has to drop them
+	TTL     int     `json:"event_ttl_s,omitempty"`     // TTL of Event records (seconds): expiry timers fire during the run
+	Lazy    int     `json:"lazy_watchers,omitempty"`   // watchers that never read: the hub has to drop them
+	Prom    bool    `json:"real_prometheus,omitempty"` // the production metrics client on a registry of this run's own
+	Follow  bool    `json:"follower_reads,omitempty"`  // a second node over the same engine serves reads, adopting the first one's revision before each
 }
 
 func genRace(r *rt.Rand, idx int) raceScenario {
@@ -88,6 +93,11 @@ func genRace(r *rt.Rand, idx int) raceScenario {
 		sc.Engine, sc.Lazy, sc.Fault = "memkv", 20+r.Intn(30), 0
 		sc.Workers, sc.Ops, sc.Millis = 6+r.Intn(6), 7000, 20000
 	}
+	// (one run per worker process: no goroutine of an earlier run is alive when the registry is replaced)
+	sc.Prom = idx%2 == 0
+	if idx%6 == 2 {
+		sc.Engine, sc.Follow = "memkv", true
+	}
 	return sc
 }
 
@@ -107,12 +117,23 @@ func runRace(sc raceScenario) (ops int64) {
 	if sc.TTL > 0 {
 		defer backend.SetEventsTTLForSim(backend.SetEventsTTLForSim(int64(sc.TTL)))
 	}
-	rm := world.NewRecMetrics(nil)
+	var prod metrics.Metrics
+	if sc.Prom {
+		kbprom.ResetRegistryForSim()
+		prod = kbprom.NewMetrics()
+	}
+	rm := world.NewRecMetrics(prod)
 	defer func() {
 		fmt.Fprintf(os.Stderr, "\nRACE-RUN-INFO slow watchers dropped: %.0f, watchers added: %.0f\n", rm.Counter("drop.slow.watcher"), rm.Counter("watcher_hub.add_watcher"))
 	}()
 	b := backend.NewBackend(kv, backend.Config{Prefix: prefix, Identity: "race", WatchCacheSize: sc.Cache, EnableEtcdCompatibility: true}, rm)
 	b.SetCurrentRevision(1000)
+	lead := b
+	var follower backend.Backend
+	if sc.Follow {
+		follower = backend.NewBackend(kv, backend.Config{Prefix: prefix, Identity: "race-follower", WatchCacheSize: sc.Cache, EnableEtcdCompatibility: true}, rm)
+		follower.SetCurrentRevision(1000)
+	}
 	ctx, cancelAll := context.WithCancel(context.Background())
 	defer cancelAll()
 	if sc.Lazy > 0 {
@@ -141,6 +162,16 @@ func runRace(sc raceScenario) (ops int64) {
 				}
 				atomic.AddInt64(&n, 1)
 				x := r.Intn(100)
+				b := lead
+				if follower != nil && g%2 == 1 {
+					// a follower read: the node adopts the leader's revision in the reader's goroutine, then reads
+					b = follower
+					b.SetCurrentRevision(lead.GetCurrentRevision())
+					x = 57 + r.Intn(43)
+					if x >= 85 && x < 89 {
+						x = 60
+					}
+				}
 				if sc.Lazy > 0 && x >= 57 && x < 93 {
 					x = 20 + r.Intn(25) // mostly updates: every successful write is one more batch in the lazy watchers' buffers
 				}
